@@ -1,21 +1,21 @@
 import FeemsProofs.Prelude
-import FeemsModel.Model.Fuel
+import FeemsModel.Model.KeyedList
 
 set_option linter.unusedSimpArgs false
 set_option linter.unusedSectionVars false
 
-namespace Feems.Fuel
-variable {M : Type} [AddCommMonoid M]
+namespace Feems.KV
+variable {K M : Type} [DecidableEq K] [AddCommMonoid M]
 
-@[simp] theorem total_nil : total ([] : Rec M) = 0 := rfl
-@[simp] theorem total_cons (e : Kind × M) (r : Rec M) : total (e :: r) = e.2 + total r := rfl
+@[simp] theorem total_nil : total ([] : Rec K M) = 0 := rfl
+@[simp] theorem total_cons (e : K × M) (r : Rec K M) : total (e :: r) = e.2 + total r := rfl
 
-theorem total_append (r s : Rec M) : total (r ++ s) = total r + total s := by
+theorem total_append (r s : Rec K M) : total (r ++ s) = total r + total s := by
   induction r with
   | nil => simp
   | cons e r ih => simp [ih, add_assoc]
 
-theorem total_filter_split (p : Kind × M → Bool) (r : Rec M) :
+theorem total_filter_split (p : K × M → Bool) (r : Rec K M) :
     total (r.filter p) + total (r.filter (fun e => !p e)) = total r := by
   induction r with
   | nil => simp
@@ -25,14 +25,14 @@ theorem total_filter_split (p : Kind × M → Bool) (r : Rec M) :
     · simp [List.filter_cons, h]
       rw [← ih]; exact add_left_comm _ _ _
 
-theorem massOf_append (k : Kind) (r s : Rec M) : massOf k (r ++ s) = massOf k r + massOf k s := by
+theorem massOf_append (k : K) (r s : Rec K M) : massOf k (r ++ s) = massOf k r + massOf k s := by
   simp [massOf, total_append]
 
-theorem massOf_cons (k : Kind) (e : Kind × M) (r : Rec M) :
+theorem massOf_cons (k : K) (e : K × M) (r : Rec K M) :
     massOf k (e :: r) = (if e.1 = k then e.2 else 0) + massOf k r := by
   by_cases h : e.1 = k <;> simp [massOf, List.filter_cons, h]
 
-theorem massOf_eq_zero_of_not_mem (k : Kind) (r : Rec M) (h : k ∉ kinds r) : massOf k r = 0 := by
+theorem massOf_eq_zero_of_not_mem (k : K) (r : Rec K M) (h : k ∉ kinds r) : massOf k r = 0 := by
   induction r with
   | nil => rfl
   | cons e r ih =>
@@ -41,7 +41,7 @@ theorem massOf_eq_zero_of_not_mem (k : Kind) (r : Rec M) (h : k ∉ kinds r) : m
     exact ih h.2
 
 /-- In a well-formed record the first entry of a kind carries that kind's whole mass. -/
-theorem firstOf_eq (k : Kind) (b : Rec M) (hb : WellFormed b) :
+theorem firstOf_eq (k : K) (b : Rec K M) (hb : WellFormed b) :
     (match firstOf k b with | some e => e.2 | none => 0) = massOf k b := by
   induction b with
   | nil => rfl
@@ -55,7 +55,7 @@ theorem firstOf_eq (k : Kind) (b : Rec M) (hb : WellFormed b) :
     · simp only [firstOf, List.find?_cons, h, decide_false, if_false, zero_add] at *
       exact ih hb'
 
-theorem addRest_eq_filter (aks : List Kind) (seen : List Kind) (b : Rec M)
+theorem addRest_eq_filter (aks : List K) (seen : List K) (b : Rec K M)
     (hb : WellFormed b) (hs : ∀ e ∈ b, e.1 ∉ seen) :
     addRest aks seen b = b.filter (fun e => decide (e.1 ∉ aks)) := by
   induction b generalizing seen with
@@ -73,11 +73,7 @@ theorem addRest_eq_filter (aks : List Kind) (seen : List Kind) (b : Rec M)
     · simp [addRest, h, he, List.filter_cons, ih _ hb' hs']
     · simp [addRest, h, List.filter_cons, ih _ hb' hs']
 
-/-- Closed form of `add` on well-formed right operands. -/
-def addSpec (a b : Rec M) : Rec M :=
-  a.map (fun e => (e.1, e.2 + massOf e.1 b)) ++ b.filter (fun e => decide (e.1 ∉ kinds a))
-
-theorem add_eq_spec (a b : Rec M) (hb : WellFormed b) : add a b = addSpec a b := by
+theorem add_eq_spec (a b : Rec K M) (hb : WellFormed b) : add a b = addSpec a b := by
   unfold add addSpec
   split
   · rename_i h
@@ -91,7 +87,7 @@ theorem add_eq_spec (a b : Rec M) (hb : WellFormed b) : add a b = addSpec a b :=
       cases firstOf e.1 b <;> simp
     · exact addRest_eq_filter _ _ _ hb (by simp)
 
-theorem total_map_add (a : Rec M) (f : Kind → M) :
+theorem total_map_add (a : Rec K M) (f : K → M) :
     total (a.map (fun e => (e.1, e.2 + f e.1))) = total a + (a.map (fun e => f e.1)).sum := by
   induction a with
   | nil => simp
@@ -100,7 +96,7 @@ theorem total_map_add (a : Rec M) (f : Kind → M) :
     rw [add_add_add_comm]
 
 /-- Sum over the entries of a well-formed `a` of the mass their kind has in `b`. -/
-theorem sum_massOf_eq (a b : Rec M) (ha : WellFormed a) :
+theorem sum_massOf_eq (a b : Rec K M) (ha : WellFormed a) :
     (a.map (fun e => massOf e.1 b)).sum = total (b.filter (fun e => decide (e.1 ∈ kinds a))) := by
   induction a with
   | nil => simp [kinds]
@@ -109,9 +105,9 @@ theorem sum_massOf_eq (a b : Rec M) (ha : WellFormed a) :
     have hnot : e.1 ∉ kinds a := (List.nodup_cons.mp ha).1
     simp only [List.map_cons, List.sum_cons, ih ha']
     -- split the filter on `kinds (e :: a)` into the part of kind `e.1` and the rest
-    have hk : ∀ x : Kind, x ∈ kinds (e :: a) ↔ x = e.1 ∨ x ∈ kinds a := by
+    have hk : ∀ x : K, x ∈ kinds (e :: a) ↔ x = e.1 ∨ x ∈ kinds a := by
       intro x; simp [kinds]
-    have : ∀ r : Rec M, total (r.filter (fun x => decide (x.1 ∈ kinds (e :: a)))) =
+    have : ∀ r : Rec K M, total (r.filter (fun x => decide (x.1 ∈ kinds (e :: a)))) =
         massOf e.1 r + total (r.filter (fun x => decide (x.1 ∈ kinds a))) := by
       intro r
       induction r with
@@ -133,4 +129,72 @@ theorem sum_massOf_eq (a b : Rec M) (ha : WellFormed a) :
             rw [ihr, if_neg h1, zero_add]
     rw [this]
 
-end Feems.Fuel
+
+theorem massOf_addSpec (k : K) (a b : Rec K M) (ha : WellFormed a) :
+    massOf k (addSpec a b) = massOf k a + massOf k b := by
+  rw [addSpec, massOf_append]
+  -- left part: the entries of `a`, each with the mass of its kind in `b` added
+  have h1 : massOf k (a.map (fun e => (e.1, e.2 + massOf e.1 b))) =
+      massOf k a + (if k ∈ kinds a then massOf k b else 0) := by
+    induction a with
+    | nil => simp [massOf, kinds]
+    | cons e a ih =>
+      have ha' : WellFormed a := (List.nodup_cons.mp ha).2
+      have hnot : e.1 ∉ kinds a := (List.nodup_cons.mp ha).1
+      rw [List.map_cons, massOf_cons, massOf_cons, ih ha']
+      have hk : k ∈ kinds (e :: a) ↔ k = e.1 ∨ k ∈ kinds a := by simp [kinds]
+      by_cases h : e.1 = k
+      · subst h
+        rw [if_pos rfl, if_pos rfl, if_neg hnot, if_pos (hk.mpr (Or.inl rfl)), add_zero]
+        show e.2 + massOf e.1 b + massOf e.1 a = e.2 + massOf e.1 a + massOf e.1 b
+        ac_rfl
+      · have h' : ¬ k = e.1 := fun x => h x.symm
+        rw [if_neg h, if_neg h, zero_add, zero_add]
+        by_cases hm : k ∈ kinds a
+        · rw [if_pos hm, if_pos (hk.mpr (Or.inr hm))]
+        · rw [if_neg hm, if_neg (fun x => (hk.mp x).elim h' hm)]
+  -- right part: the entries of `b` whose kind is not in `a`
+  have h2 : massOf k (b.filter (fun e => decide (e.1 ∉ kinds a))) =
+      (if k ∈ kinds a then 0 else massOf k b) := by
+    unfold massOf
+    rw [List.filter_filter]
+    by_cases h : k ∈ kinds a
+    · rw [if_pos h]
+      have : b.filter (fun e => (decide (e.1 = k) && decide (e.1 ∉ kinds a))) = [] := by
+        apply List.filter_eq_nil_iff.mpr
+        intro e _ hc
+        simp only [Bool.and_eq_true, decide_eq_true_eq] at hc
+        exact hc.2 (hc.1 ▸ h)
+      rw [this]; rfl
+    · rw [if_neg h]
+      congr 1
+      apply List.filter_congr
+      intro e _
+      by_cases hk : e.1 = k
+      · simp [hk, h]
+      · simp [hk]
+  rw [h1, h2]
+  by_cases h : k ∈ kinds a <;> simp [h, add_assoc]
+
+theorem total_addSpec (a b : Rec K M) (ha : WellFormed a) :
+    total (addSpec a b) = total a + total b := by
+  rw [addSpec, total_append, total_map_add a (fun k => massOf k b), sum_massOf_eq a b ha, add_assoc]
+  congr 1
+  have := total_filter_split (fun e => decide (e.1 ∈ kinds a)) b
+  simpa using this
+
+theorem wellFormed_addSpec (a b : Rec K M) (ha : WellFormed a) (hb : WellFormed b) :
+    WellFormed (addSpec a b) := by
+  unfold addSpec WellFormed kinds
+  rw [List.map_append, List.map_map]
+  have e1 : ((fun x : K × M => x.1) ∘ fun e : K × M => (e.1, e.2 + massOf e.1 b)) = fun x : K × M => x.1 := rfl
+  rw [e1]
+  apply List.Nodup.append ha
+  · exact List.Nodup.sublist (List.Sublist.map _ List.filter_sublist) hb
+  · intro k hk1 hk2
+    rcases List.mem_map.mp hk2 with ⟨e, he, rfl⟩
+    have := (List.mem_filter.mp he).2
+    simp only [decide_eq_true_eq] at this
+    exact this hk1
+
+end Feems.KV
